@@ -128,8 +128,10 @@ def probeToks (k : Kind) (s : St) (p4 : Word) (va : Nat) : List String :=
 
 /-! ### Oracles on the implementation's memory -/
 
+/-- The mapping the history dictates for `va`. A page whose leaf flags do not contain `PRESENT` (a reserved /
+swapped-out page) occupies its slot but maps nothing: translation and the hardware see "not mapped". -/
 def absLookup (abs : List AbsMap) (va : Nat) : Option AbsMap :=
-  abs.find? (fun a => a.start ≤ va && va < a.start + a.size)
+  (abs.find? (fun a => a.start ≤ va && va < a.start + a.size)).filter (fun a => a.flags &&& 1#64 != 0#64)
 
 /-- flag domain on which leaf flags are compared: bits 0..11, 52..63 (+ bit 12 for huge leaves) -/
 def flagDom (size : Nat) : Word := if size == 4096 then 0xfff0000000000fff#64 else 0xfff0000000001fff#64
@@ -143,11 +145,44 @@ def walkMatchesAbs (m : PMem) (p4 : Word) (abs : List AbsMap) (va : Nat) : Bool 
       x.flags == (a.flags &&& flagDom a.size)
   | _, _ => false
 
-/-- C01: the observed `translate`/`translate_addr`/`translate_page` numbers agree with the walk. -/
+/-- The software reading of the tables used by `translate*`: as the hardware walk, except that a *leaf* entry
+need not be present - a non-zero level-1 entry, or a level-2/3 entry with the huge-page bit, is reported as
+a mapping whose flags lack `PRESENT` (a reserved / swapped-out page; the caller sees it in the flags).
+Parent entries must be present, as for the hardware. -/
+def walkSoft (m : PMem) (cr3 : Word) (va : Nat) : Option Xlat :=
+  let e4 := m cr3 (vaIdx4 va)
+  if !bitP e4 || bitPS e4 then none else
+  let e3 := m (tableAddr e4) (vaIdx3 va)
+  if bitPS e3 then
+    some { base := (addr1G e3).toNat, size := 2^30, off := va % 2^30, flags := leafFlagsHuge e3,
+           rw := bitRW e4 && bitRW e3, us := bitUS e4 && bitUS e3 }
+  else if !bitP e3 then none else
+  let e2 := m (tableAddr e3) (vaIdx2 va)
+  if bitPS e2 then
+    some { base := (addr2M e2).toNat, size := 2^21, off := va % 2^21, flags := leafFlagsHuge e2,
+           rw := bitRW e4 && bitRW e3 && bitRW e2, us := bitUS e4 && bitUS e3 && bitUS e2 }
+  else if !bitP e2 then none else
+  let e1 := m (tableAddr e2) (vaIdx1 va)
+  if e1 == 0#64 then none else
+    some { base := (tableAddr e1).toNat, size := 4096, off := va % 4096, flags := leafFlags4K e1,
+           rw := bitRW e4 && bitRW e3 && bitRW e2 && bitRW e1,
+           us := bitUS e4 && bitUS e3 && bitUS e2 && bitUS e1 }
+
+/-- C01: what `translate*` must report equals what the history dictates - including the pages mapped without
+`PRESENT`, which the API reports with their flags while the hardware (`walkMatchesAbs`) does not see them. -/
+def softMatchesAbs (m : PMem) (p4 : Word) (abs : List AbsMap) (va : Nat) : Bool :=
+  match walkSoft m p4 va, abs.find? (fun a => a.start ≤ va && va < a.start + a.size) with
+  | none, none => true
+  | some x, some a =>
+    x.base == a.frame && x.size == a.size && x.off == va - a.start &&
+      x.flags == (a.flags &&& flagDom a.size)
+  | _, _ => false
+
+/-- C01: the observed `translate`/`translate_addr`/`translate_page` numbers agree with the (software) walk. -/
 def probeMatchesWalk (m : PMem) (p4 : Word) (va : Nat) (obs : List Nat) : Bool :=
   match obs with
   | [tk, tf, tsz, toff, tfl, ak, apa, k4, f4, k2, f2, k1, f1] =>
-    match walk m p4 va with
+    match walkSoft m p4 va with
     | none => tk == 0 && ak == 0 && k4 != 0 && k2 != 0 && k1 != 0
     | some x =>
       tk == 1 && tf == x.base && tsz == x.size && toff == x.off &&
@@ -377,7 +412,7 @@ def handleMapper : SHandler MState := fun _cfg op a impl st =>
           !(imPre (w f) i == 0#64 && allocated.contains (tableAddr (w v)) && postSlots.contains (w f, i)) ||
             (w v &&& 3#64) == 3#64)
         -- C01
-        let c01a := probes.all (fun va => walkMatchesAbs imPost p4 abs' va)
+        let c01a := probes.all (fun va => walkMatchesAbs imPost p4 abs' va && softMatchesAbs imPost p4 abs' va)
         let c01b := (probes.zip obs.probes).all (fun (va, o) => probeMatchesWalk imPost p4 va o)
         let c01 :=
           c01a && c01b &&
@@ -392,7 +427,7 @@ def handleMapper : SHandler MState := fun _cfg op a impl st =>
           (if isOk && opcode ≤ 2 then
              match walk imPost p4 pageEff with
              | some x => (!(bitRW pflagsEff && bitRW (w flags)) || x.rw) && (!(bitUS pflagsEff && bitUS (w flags)) || x.us)
-             | none => false
+             | none => w flags &&& 1#64 == 0#64      -- a page mapped without PRESENT is not visible to the walk
            else true) &&
           recLinks
         -- C02
@@ -436,7 +471,11 @@ def handleMapper : SHandler MState := fun _cfg op a impl st =>
         let c10 :=
           if opcode < 9 then true else
             obs.allocs == 0 &&
-            probes.all (fun va => sameMapping (walk imPost p4 va) (walk imPre p4 va)) &&
+            probes.all (fun va => sameMapping (walk imPost p4 va) (walk imPre p4 va) &&
+              sameMapping (walkSoft imPost p4 va) (walkSoft imPre p4 va)) &&
+            -- a deallocated table is entirely empty (every entry zero - also entries without PRESENT count as
+            -- "still holds an entry"); nothing writes into a freed table during the call
+            obs.deallocs.all (fun f => (List.range 512).all (fun j => imPost (w f) j == 0#64)) &&
             -- each deallocated frame was a level-1..3 table before, exactly once, never the P4 frame
             obs.deallocs.all (fun f => preTables.contains (w f) && w f != p4) &&
             obs.deallocs.eraseDups.length == obs.deallocs.length &&
